@@ -393,34 +393,73 @@ def run_controls(chk, d, pd, cases, hooked_available):
 
     add("snapshot-only-line-ignores-hook-fields", (), record_from_case(base), edit=unhook)
 
-    # mutants of apply_gbs run through REAL updates via the same attribute replacement
+    # Variants of apply_gbs run through REAL updates via the same attribute replacement.  These
+    # controls presuppose a correct update path around apply_gbs, so they are implementation-
+    # dependent: the same scenario is first run with the ORIGINAL function (a real history whose
+    # verdicts are genuine violations), and the variant controls are enforced only when that
+    # baseline and the main run are clean.  On a tree that already violates the property they are
+    # recorded as "not enforced" - a broken implementation must give exit 1, not exit 2.
+    impl_dependent, broken = set(), {}
+    base_tid, base_lines, base_sc = None, [], None
     n_mut = 0
     if hooked_available:
         sc = dict(phase=0, fabric=0, chi=3, M=125, n=8, tex="random", fl="ss_xz", nupd=3, id=[0, 0, 0, 0, 0, 0])
-        for kind, clauses in MUTANTS.items():
+        base_sc = sc
+        for kind, clauses in [("original", ())] + list(MUTANTS.items()):
             ls, mt = [], {}
             dry = Check(PID, chk.tier, dry=True)
             facts = _facts()
-            with Hook(impl=mutant(kind)) as hk:
-                run_history(pd, hk, sc, tid, dry, facts, ls, mt, salt=5)
+            try:
+                with Hook(impl=None if kind == "original" else mutant(kind)) as hk:
+                    run_history(pd, hk, sc, tid, dry, facts, ls, mt, salt=5)
+            except Exception as ex:  # noqa: BLE001
+                ls = []
+                broken[kind] = f"{type(ex).__name__}: {ex}"[:200]
             if len(ls) != 3 or not all(x["hooked"] for x in ls):
-                raise MachineryError(f"mutant control '{kind}' did not record three hooked updates")
+                broken.setdefault(kind, f"recorded {len(ls)} update(s) instead of three hooked ones (skips: {dry.cov['skipped']})")
+                continue
             lines.extend(ls)
-            expect[tid] = (f"mutant-apply_gbs:{kind}", clauses)
+            if kind == "original":
+                base_tid, base_lines = tid, ls
+            else:
+                expect[tid] = (f"mutant-apply_gbs:{kind}", clauses)
+                impl_dependent.add(tid)
+                n_mut += 1
             tid += 1
-            n_mut += 1
     rejects, res = validate(lines, d, "controls")
     chk.add_tlc("GbsTrace(controls)", res, f"{len(expect)} planted histories ({len(lines)} lines): records built from the spec's own exact output and corrupted copies, "
-                f"{n_mut} Python variants of apply_gbs run through real updates")
+                f"{n_mut} Python variants of apply_gbs (and the original) run through real updates")
     by = {}
     for t, _, clause, _, _ in rejects:
         by.setdefault(t, set()).add(clause)
+    # the baseline is a real execution of the real code: its verdicts are violations, not control results
+    first_line = {}
+    for t, ln, clause, g, cnt in rejects:
+        if t == base_tid:
+            if clause.startswith(TRACE_DEFECT):
+                raise MachineryError(f"recorder defect reported by the trace spec in the control baseline: {clause}")
+            k = lines[ln - 1]["k"]
+            chk.violation(dict(level="trace", clause=clause, chi="positive", n=base_sc["n"]),
+                          f"update {k} of control-baseline scenario {base_sc}: {clause} at grain {g} ({cnt} grain(s))",
+                          dict(kind="scenario", scenario=base_sc, seed=scenario_seed(base_sc, 5), salt=5, update=k, verif_seed=SEED, line=lines[ln - 1]))
+    tree_clean = not chk.violations and not chk.known_hits and "original" not in broken
     for t, (name, clauses) in expect.items():
         got = by.get(t, set())
-        if clauses:
-            chk.control(f"trace-spec-rejects:{name}", set(clauses) <= got, f"expected {list(clauses)}, got {sorted(got)}")
+        ok = (set(clauses) <= got) if clauses else (not got)
+        label = (f"trace-spec-rejects:{name}" if clauses else f"trace-spec-accepts:{name}")
+        detail = f"expected {list(clauses) if clauses else 'no verdict'}, got {sorted(got)}"
+        if t in impl_dependent and not tree_clean:
+            chk.cov["negative_controls"].append(dict(control=label, fired=bool(ok), enforced=False,
+                                                     detail=detail + " [implementation-dependent control; not enforced because this run found violations of the property]"))
         else:
-            chk.control(f"trace-spec-accepts:{name}", not got, f"expected no verdict, got {sorted(got)}")
+            chk.control(label, ok, detail)
+    for kind, why in broken.items():
+        label = "mutant-control-history:" + kind
+        if tree_clean or (kind != "original" and "original" not in broken and not chk.violations and not chk.known_hits):
+            raise MachineryError(f"control history '{kind}' could not be recorded: {why}")
+        chk.cov["negative_controls"].append(dict(control=label, fired=False, enforced=False, detail=why + " [not enforced: the run found violations / the baseline history failed too]"))
+        if kind == "original":
+            chk.skip("control-baseline-history-not-recorded")
 
 
 def _facts():
@@ -485,7 +524,12 @@ def main(tier):
     tiny["out"][1] = [p * 10**13 + 1, q * 10**13]  # Python integers: exact; p/q is correctly rounded
     flip = json.loads(json.dumps(good))
     flip["mask"][flip["mask"].index(True)] = False
-    got = [replay_case(fn, x, probe)[0] for x in (bump, tiny, flip)]
+    # the comparison logic is what is under test here: the cases are run through a Python variant
+    # (control only), not through the implementation, so a broken apply_gbs cannot disable them
+    ref = mutant("correct-python-variant")
+    if replay_case(ref, good, probe)[0] is not None or probe.violations:
+        raise MachineryError("the control-only Python variant of apply_gbs disagrees with the specification's expected output")
+    got = [replay_case(ref, x, probe)[0] for x in (bump, tiny, flip)]
     chk.control("replayer-flags-perturbed-expected-volume", got[0] == "volume" and got[1] == "volume", f"relative perturbations ~1e-7 and {tiny_rel:.1e}: {got[:2]}")
     chk.control("replayer-flags-flipped-expected-selection", got[2] == "orientation-selection", str(got[2]))
     strict = replay_case(lambda o, f, chi, prev, n: _nonstrict(o, f, chi, prev, n), tiec, probe)[0]
@@ -511,8 +555,6 @@ def main(tier):
         chk.cov["hook"] += f"; {facts['updates_not_hooked']} update(s) without a recorded call were judged on snapshot clauses only"
     if not lines:
         raise MachineryError("no update was recorded")
-    if hooked_available and facts["updates_not_hooked"] == 0 and (facts["grains_shrinking_through_threshold"] == 0 or facts["grains_below"] == 0 or facts["grains_not_below"] == 0):
-        raise MachineryError(f"recorded histories are trivial: {facts}")
     with scratch() as d:
         rejects, res = validate(lines, d, "main", timeout=900 if quick else 1800)
         chk.add_tlc("GbsTrace", res, f"{len(lines)} recorded updates of {len(scen)} histories ({res['hooked_lines']} with the integrated state captured)")
@@ -525,6 +567,9 @@ def main(tier):
             chk.violation(dict(level="trace", clause=clause, chi="zero" if sc["chi"] == 0 else "positive", n=sc["n"]),
                           f"update {mt['k']} of scenario {sc} (seed {mt['seed']}): {clause} at grain {g} ({cnt} grain(s))",
                           dict(kind="scenario", scenario=sc, seed=mt["seed"], salt=mt["salt"], update=mt["k"], verif_seed=SEED, line=lines[ln - 1]))
+        if (not chk.violations and not chk.known_hits and hooked_available and facts["updates_not_hooked"] == 0
+                and (facts["grains_shrinking_through_threshold"] == 0 or facts["grains_below"] == 0 or facts["grains_not_below"] == 0)):
+            raise MachineryError(f"recorded histories are trivial: {facts}")
         pick = next((i for i, x in enumerate(lines) if x["hooked"] and x["n"] == 8 and any(x["below"]) and not all(x["below"])), 0)
         chk.sample(dict(kind="update-line", scenario=meta[pick + 1]["sc"], line=lines[pick]))
         # ---- 4. negative / positive controls of the trace specification
